@@ -148,6 +148,37 @@ theorem finishVm_failed_exact {c : Ctx} {w : World} {bp : Nat} {tx : Tx} {snd rc
       cases hl
   · subst h; simp [successBranch] at hf
 
+theorem finishOwn_failed_exact {c : Ctx} {w : World} {bp : Nat} {tx : Tx} {acc : Copy} {isFD : Bool}
+    {st : Status} {res : Result} (ho : acc.old = w.acct acc.id)
+    (h : finishOwn w bp tx st (executeOwn c w tx acc isFD) = res)
+    (hf : res.outcome = .failed) (hl : res.leak = false) :
+    ∃ fee, res.receipt = some { status := .error, fee, feeDelegation := tx.type = .feeDelegation, contract := acc.id } ∧
+      res.bp = bp + fee ∧
+      res.w = chargeFeeNonce w (tx.type = .feeDelegation) acc.id acc.id fee tx.nonce ∧
+      fee ≤ (if (tx.type = .feeDelegation) ∧ acc.id ≠ acc.id then w.bal acc.id else w.bal acc.id) := by
+  generalize hoo : executeOwn c w tx acc isFD = o at h
+  obtain ⟨k1, k2, k3, k4⟩ := executeOwn_spec hoo
+  have sf := subBalance_facts o.rcv o.fee
+  unfold finishOwn at h
+  simp only [] at h
+  split at h
+  · subst h; simp at hf
+  · rename_i herr
+    have hid : (o.rcv.subBalance o.fee).id = acc.id := by rw [sf.1, k1]
+    have hold : (o.rcv.subBalance o.fee).old = w.acct (o.rcv.subBalance o.fee).id := by rw [sf.2.1, hid, k2]; exact ho
+    cases hlk : o.leak
+    · have hw := k4 herr hlk
+      rw [hw, hlk] at h
+      have := runtimeBranch_exact hold hold h hf
+      rw [hid] at this
+      exact ⟨o.fee, this⟩
+    · rw [hlk] at h
+      subst h
+      have := runtimeBranch_leak_true hf
+      rw [this] at hl
+      cases hl
+  · subst h; simp [successBranch] at hf
+
 /-- **A transaction that fails at run time changes exactly fee and nonce**: the whole world — every
 account, every contract's storage, creator records, staking, votes, names — equals the world before
 with the fee taken from the payer and the sender's nonce advanced; unless the result is flagged `leak`
@@ -182,12 +213,20 @@ theorem executeTx_failed_exact {c : Ctx} {w : World} {bp : Nat} {tx : Tx} {res :
               · subst h; simp at hf
               · split at h
                 · subst h; simp at hf
-                · obtain ⟨fee, q1, q2, q3, q4⟩ := finishVm_failed_exact hso m2 h hf hl
-                  simp only [getCopy_id] at q3 q4
-                  exact ⟨_, q1, rfl, q2, q3, q4⟩
-          · obtain ⟨fee, q1, q2, q3, q4⟩ := finishVm_failed_exact hso m2 h hf hl
-            simp only [getCopy_id] at q3 q4
-            exact ⟨_, q1, rfl, q2, q3, q4⟩
+                · split at h
+                  · obtain ⟨fee, q1, q2, q3, q4⟩ := finishOwn_failed_exact hso h hf hl
+                    simp only [getCopy_id] at q1 q3 q4
+                    exact ⟨_, q1, rfl, q2, q3, q4⟩
+                  · obtain ⟨fee, q1, q2, q3, q4⟩ := finishVm_failed_exact hso m2 h hf hl
+                    simp only [getCopy_id] at q3 q4
+                    exact ⟨_, q1, rfl, q2, q3, q4⟩
+          · split at h
+            · obtain ⟨fee, q1, q2, q3, q4⟩ := finishOwn_failed_exact hso h hf hl
+              simp only [getCopy_id] at q1 q3 q4
+              exact ⟨_, q1, rfl, q2, q3, q4⟩
+            · obtain ⟨fee, q1, q2, q3, q4⟩ := finishVm_failed_exact hso m2 h hf hl
+              simp only [getCopy_id] at q3 q4
+              exact ⟨_, q1, rfl, q2, q3, q4⟩
 
 
 /-! ### a successful plain transfer, without copies -/
@@ -215,7 +254,9 @@ theorem transfer_effects {c : Ctx} {w : World} {bp : Nat} {tx : Tx} {r : Addr} {
       have hmk : mkReceiver w tx = .ok (w.getCopy r, .success) := by
         simp [mkReceiver, hr, ht]
       rw [if_neg (by simp [ht]), hmk] at h
-      simp only [ht] at h
+      have hrs : ¬ tx.recipient = some tx.sender := by
+        rw [hr]; intro e; exact hne (Option.some.inj e).symm
+      simp only [ht, hrs, decide_false, Bool.false_and, Bool.false_eq_true, if_false] at h
       -- Execute: the amount moves between the two records, no code: nothing is executed
       have hsend : sendBal (w.getCopy tx.sender) (w.getCopy r) tx.amount =
           some ((w.getCopy tx.sender).subBalance tx.amount, (w.getCopy r).addBalance tx.amount) := by
